@@ -82,10 +82,11 @@ def run_family(n, seed, depth=3):
     """returns (games, states, generated, window_failures): full-key mode must pass on every game"""
     rnd = random.Random(seed)
     states = gen = wfail = 0
+    fails = {}
     for i in range(n):
         name, path = write_game(i, rnd, tlc.WORK)
         try:
-            for mode in ("full", "window"):
+            for mode in ("full", "window", "noside", "nodepth"):
                 cfg = tlc.write_cfg("%s_%s.cfg" % (name, mode), CFG.format(rootmax=rnd.choice(["TRUE", "FALSE"]) if mode == "x" else "TRUE", depth=depth, mode=mode))
                 r = tlc.run(name, cfg, workers=2, heap="1g", young="200m", timeout=900)
                 os.unlink(cfg)
@@ -96,6 +97,7 @@ def run_family(n, seed, depth=3):
                     gen += r.generated
                 elif r.violated:
                     wfail += 1
+                    fails[mode] = fails.get(mode, 0) + 1
         finally:
             os.unlink(path)
-    return n, states, gen, wfail
+    return n, states, gen, fails
